@@ -20,3 +20,10 @@ Lemma c13_factories_share_nothing :
                       Nat.eqb n 1 && match used with [] => true | _ => false end &&
                       match assigned with [] => true | _ => false end end) factory_captures = true.
 Proof. vm_compute. split; reflexivity. Qed.
+
+(* the random start solutions: the copies of the empty solution - each draws a
+   seed from the shared solution's random source - are taken by the launching
+   loop in index order, never inside the construction goroutines (which start
+   solution gets which seed would depend on scheduling) *)
+Lemma c13_no_copy_in_wrapper_goroutine : goroutine_calls "Copy" solver_parallel_wrapper_body = false.
+Proof. vm_compute. reflexivity. Qed.
